@@ -20,10 +20,14 @@ PROPS['C10'] = dict(
                 'universally quantified over expressions, operands and thresholds and is a per-call input/output relation.'),
     level_note='Trusted: rustc, Verus+Z3, Kani+CBMC, the extractor; assumed: parser emits the prefix encoding, ArrayDeque(Saturating) contract, leaf-iterator split (checked by Kani on the real function, bounded environment).',
     technique='contract-based deductive verification (Verus requires/ensures/invariants on extracted real code + Kani harnesses)',
-    explanation=('Contracts on the real switch.rs functions. Verus (unbounded): lossy tick codec equals its documented '
-                 'spec and round-trips within the documented resolution; every OpCode constructor followed by opcode_type '
-                 'decodes to the operand it was built from (bit-vector lemmas); all assert!/expect/unreachable!/overflow '
-                 'sites in those functions are proved unreachable under the stated preconditions.'),
+    explanation=('Contracts on the real switch.rs functions. Verus (unbounded): (A1) lossy tick codec equals its documented spec and '
+                 'round-trips within the documented resolution; (A2) every OpCode constructor followed by opcode_type decodes to the operand it '
+                 'was built from (bit-vector lemmas); (A3) evaluate_boolean returns sem_top(ops, env) = the meaning of the prefix-encoded condition '
+                 '(or = some, and = every, not = none, implicit top-level or, empty list true) for EVERY well-formed opcode stream of any size and '
+                 'nesting depth <= 8: loop invariant over a ghost frame stack, inductive lemmas lemma_split / lemma_pop / lemma_push / lemma_leaf_step, '
+                 'termination, stack never overflows, expect/unreachable!/index sites unreachable; (A4) SwitchActions::next returns the first firing '
+                 'case from case_index on, break ends the iteration, fallthrough continues. Kani: the same codec facts on the unextracted functions '
+                 'over full operand domains, and each leaf arm of the real evaluate_boolean against the leaf meaning the Verus proof assumes (R5 split).'),
     verus=[dict(unit='switch', cex={'evaluate_boolean': ['c10_b_shape_nested_last_then_more', 'c10_b_shape_nested_first', 'c10_b_shape_nested_last', 'c10_b_shape_toplevel_list']})],
     kani=[
         H('keyberon', 'action::switch', 'c10_k_codec_ticks', kind='complete', functions=['keyberon/src/action/switch.rs lossy_compress_ticks', 'keyberon/src/action/switch.rs lossy_decompress_ticks', 'keyberon/src/action/switch.rs OpCode::new_ticks_since_gt', 'keyberon/src/action/switch.rs OpCode::new_ticks_since_lt', 'keyberon/src/action/switch.rs OpCode::opcode_type'], covers='all u16 thresholds x all recencies'),
@@ -39,10 +43,10 @@ PROPS['C10'] = dict(
         H('keyberon', 'action::switch', 'c10_b_leaf_input_history', kind='complete', bound='history <= 8 entries = capacity of the real History', functions=['keyberon/src/action/switch.rs evaluate_boolean (HistoricalInput leaf arm)']),
         H('keyberon', 'action::switch', 'c10_b_leaf_layer', kind='bounded', bound='<= 3 layers in the order (only the first is read)', functions=['keyberon/src/action/switch.rs evaluate_boolean (Layer, BaseLayer leaf arms)']),
         H('keyberon', 'action::switch', 'c10_b_leaf_key_neg', kind='bounded', expect='fail', covers='must-fail twin: key leaf claimed always true'),
-        H('keyberon', 'action::switch', 'c10_b_shape_nested_first', kind='bounded', bound='fixed shape (op1 (op2 a b) c), all 9 operator pairs, all 8 assignments', functions=['keyberon/src/action/switch.rs evaluate_boolean (operator stack)']),
-        H('keyberon', 'action::switch', 'c10_b_shape_nested_last', kind='bounded', bound='fixed shape (op1 a (op2 b c)), all 9 operator pairs, all 8 assignments'),
-        H('keyberon', 'action::switch', 'c10_b_shape_nested_last_then_more', kind='bounded', bound='fixed shape (op0 (op1 (op2 a b)) c), all 27 operator triples, all 8 assignments'),
-        H('keyberon', 'action::switch', 'c10_b_shape_toplevel_list', kind='bounded', bound='fixed shape (op1 a b) c + empty list'),
+        H('keyberon', 'action::switch', 'c10_b_shape_nested_first', kind='bounded', tier='thorough', bound='fixed shape (op1 (op2 a b) c), all 9 operator pairs, all 8 assignments', functions=['keyberon/src/action/switch.rs evaluate_boolean (operator stack)']),
+        H('keyberon', 'action::switch', 'c10_b_shape_nested_last', kind='bounded', tier='thorough', bound='fixed shape (op1 a (op2 b c)), all 9 operator pairs, all 8 assignments'),
+        H('keyberon', 'action::switch', 'c10_b_shape_nested_last_then_more', kind='bounded', tier='thorough', bound='fixed shape (op0 (op1 (op2 a b)) c), all 27 operator triples, all 8 assignments'),
+        H('keyberon', 'action::switch', 'c10_b_shape_toplevel_list', kind='bounded', tier='thorough', bound='fixed shape (op1 a b) c + empty list'),
     ],
     assumptions=[
         'the parser emits enc(e) for a written expression e (parse_switch_case_bool is outside both verifiers)',
@@ -150,7 +154,7 @@ PROPS['C05'] = dict(
                 'against the decision table of the property statement for the three built-in variants, every clock value, and every queue of <= 4 '
                 'events over 3 keys; plus "fires exactly at the H-th tick" for H <= 6. Bounded stand-in; the execution of the decision '
                 '(waiting_into_*, replay of buffered keys) is not under contract.'),
-    level_note='Trusted: rustc, Kani + CBMC. Not decided: waiting_into_hold/tap/timeout consume the state once and replay buffered keys in order; repress window; extra_waiting; custom closures (separate, parser crate).',
+    level_note='Trusted: rustc, Kani + CBMC. Not decided: waiting_into_hold/tap/timeout consume the state once and replay buffered keys in order; repress window; extra_waiting.',
     technique='contract harnesses (Kani/CBMC): symbolic waiting state + symbolic bounded queue, decision oracle from the statement, frame, must-fail twin',
     design_ref='DESIGN.md section 4, C05',
     explanation='handle_hold_tap: at most one of Tap/Hold/Timeout, never NoOp; Tap iff own release queued before the timeout elapsed; Timeout exactly when it elapses; early Hold on other press (press variant) / other press+release (release variant); queue and clock untouched.',
@@ -161,8 +165,12 @@ PROPS['C05'] = dict(
         H('keyberon', 'layout', 'c05_b_timeout_on_time', kind='bounded', bound='H in 1..=6, empty queue'),
         H('keyberon', 'layout', 'c05_k_last_press_tracker', kind='complete', functions=[L + 'LastPressTracker::tick_lpt', L + 'LastPressTracker::update_coord']),
         H('keyberon', 'layout', 'c05_b_handle_hold_tap_neg', kind='bounded', expect='fail', covers='must-fail twin'),
+        H('parser', 'cfg::custom_tap_hold', 'c05_b_custom_release_keys', kind='bounded', bound='queue <= 3 events over 4 keys, one listed key', functions=['parser/src/cfg/custom_tap_hold.rs custom_tap_hold_release (returned closure)']),
+        H('parser', 'cfg::custom_tap_hold', 'c05_b_custom_except_keys', kind='bounded', bound='queue <= 3 events over 4 keys, one listed key', functions=['parser/src/cfg/custom_tap_hold.rs custom_tap_hold_except (returned closure)']),
+        H('parser', 'cfg::custom_tap_hold', 'c05_b_custom_release_keys_neg', kind='bounded', expect='fail', covers='must-fail twin'),
     ],
     assumptions=[
+        'custom closures: Allocations::{sref, bref_slice} (leak-tracking behind a parking_lot mutex) are STUBBED by plain Box::leak in the harness (kani::stub); the closures themselves are the real code',
         'decision only: waiting_into_hold / waiting_into_tap / waiting_into_timeout and the replay of buffered keys run Layout::do_action and are NOT under contract',
         'queues longer than 4 events are not explored',
     ],
